@@ -97,7 +97,9 @@ def pre_step(world: World, sim: SimRunner, inputs: InputData):
             # stepped but didn't provide the connected output.
             for inode in eg.nodes:
                 node_sid, itime = inode
-                if node_sid == pre:
+                # (Nodes without 't' have only been announced as a
+                # self-step; that step has not been performed yet.)
+                if node_sid == pre and 't' in eg.nodes[inode]:
                     if (next_step >= itime + sim.input_delays[pre_sim] and itime >= pre_time):
                         pre_node = inode
                         pre_time = itime
